@@ -193,3 +193,152 @@ func BaseName(f *ssa.Function) string {
 	}
 	return f.Name()
 }
+
+// CanonFields lists, for the struct types the rules talk about, the field
+// names of the tree the rules were written against, in declaration order. A
+// field the rules name is looked up by that name first; if the struct has no
+// such field but still has the canonical number of fields, the field at the
+// canonical position is meant (unexported fields were renamed). Keys built
+// from field names use the canonical name, so that a rename changes no key.
+var CanonFields = map[string][]string{
+	"Point":             {"x", "y", "z", "t", "_"},
+	"projP1xP1":         {"X", "Y", "Z", "T"},
+	"projP2":            {"X", "Y", "Z"},
+	"projCached":        {"YplusX", "YminusX", "Z", "T2d"},
+	"affineCached":      {"YplusX", "YminusX", "T2d"},
+	"Scalar":            {"s"},
+	"Element":           {"l0", "l1", "l2", "l3", "l4"},
+	"projLookupTable":   {"points"},
+	"affineLookupTable": {"points"},
+	"nafLookupTable5":   {"points"},
+	"nafLookupTable8":   {"points"},
+}
+
+func canonOf(t types.Type) ([]string, *types.Struct) {
+	st, ok := t.Underlying().(*types.Struct)
+	if !ok {
+		return nil, nil
+	}
+	n, ok := t.(*types.Named)
+	if !ok {
+		return nil, st
+	}
+	canon := CanonFields[n.Obj().Name()]
+	if len(canon) != st.NumFields() {
+		return nil, st
+	}
+	// the canonical names apply only if every actual name that is canonical sits at its canonical position
+	for i := 0; i < st.NumFields(); i++ {
+		for j, c := range canon {
+			if st.Field(i).Name() == c && i != j {
+				return nil, st
+			}
+		}
+	}
+	return canon, st
+}
+
+// FieldIndex resolves a (canonical) field name of a struct type; -1 if there is none.
+func FieldIndex(t types.Type, name string) int {
+	canon, st := canonOf(t)
+	if st == nil {
+		return -1
+	}
+	for i := 0; i < st.NumFields(); i++ {
+		if st.Field(i).Name() == name {
+			return i
+		}
+	}
+	for i, c := range canon {
+		if c == name {
+			return i
+		}
+	}
+	return -1
+}
+
+// FieldName is the canonical name of field i of struct type t.
+func FieldName(t types.Type, i int) string {
+	canon, st := canonOf(t)
+	if st == nil || i < 0 || i >= st.NumFields() {
+		return fmt.Sprintf("f%d", i)
+	}
+	if canon != nil {
+		return canon[i]
+	}
+	return st.Field(i).Name()
+}
+
+// ResultOrigin follows result k of callee h through unexported helpers that
+// merely forward another call's result: if every return of h yields, at
+// position k, result j of a call to one and the same function g (directly or
+// through phis), the origin is (g, j), followed recursively. Exported API
+// functions are origins themselves (their names are the stable vocabulary of
+// the rules).
+func (p *Program) ResultOrigin(h *ssa.Function, k int) (*ssa.Function, int) {
+	for depth := 0; depth < 5; depth++ {
+		if h == nil || !p.InRepo(h) || p.IsAPIRoot(h) || len(h.Blocks) == 0 {
+			return h, k
+		}
+		if _, known := reference[ShortName(h)]; known {
+			return h, k // a helper of the reference tree: rules name it directly
+		}
+		var g *ssa.Function
+		j := -1
+		ok := true
+		var visit func(v ssa.Value, seen map[ssa.Value]bool)
+		visit = func(v ssa.Value, seen map[ssa.Value]bool) {
+			if seen[v] || !ok {
+				return
+			}
+			seen[v] = true
+			switch x := v.(type) {
+			case *ssa.Phi:
+				for _, e := range x.Edges {
+					visit(e, seen)
+				}
+			case *ssa.Extract:
+				c, isCall := x.Tuple.(*ssa.Call)
+				if !isCall {
+					ok = false
+					return
+				}
+				cal, _ := StaticCallee(c)
+				if cal == nil || (g != nil && (g != cal || j != x.Index)) {
+					ok = false
+					return
+				}
+				g, j = cal, x.Index
+			case *ssa.Call:
+				cal, _ := StaticCallee(x)
+				if cal == nil || (g != nil && (g != cal || j != 0)) {
+					ok = false
+					return
+				}
+				g, j = cal, 0
+			default:
+				ok = false
+			}
+		}
+		n := 0
+		for _, b := range h.Blocks {
+			if len(b.Instrs) == 0 {
+				continue
+			}
+			r, isRet := b.Instrs[len(b.Instrs)-1].(*ssa.Return)
+			if !isRet {
+				continue
+			}
+			n++
+			if k >= len(r.Results) {
+				return h, k
+			}
+			visit(r.Results[k], map[ssa.Value]bool{})
+		}
+		if !ok || g == nil || n == 0 {
+			return h, k
+		}
+		h, k = g, j
+	}
+	return h, k
+}
